@@ -881,6 +881,267 @@ def write_jsonld(quads, style=None, ext_base=None):
     return json.dumps(top, indent=st_indent(style), ensure_ascii=False) + "\n"
 
 
+_TERM_OK = re.compile(r"^[A-Za-z][A-Za-z0-9_.\-]*$")
+
+
+def write_jsonld_compact(quads, style, ext_base=None):
+    """JSON-LD with a context: prefixes, @vocab, @base, keyword aliases, a default language, term definitions with type / language
+    coercion, @container @list / @set, reverse properties, embedded node objects, native numbers and booleans, terms and keys that
+    are ignored (mapped to null / not expandable), the context split into an array.  (the other writer spells the expanded form)"""
+    st = _st(style)
+    K = json.dumps
+    NIL, TYPE = RDF + "nil", RDF + "type"
+
+    def ns_of(iri):
+        i = max(iri.rfind("#"), iri.rfind("/")) + 1
+        return iri[:i], iri[i:]
+
+    iris = [t[1] for q in quads for t in q if t is not None and t[0] == "u"] + [t[3] for q in quads for t in q[:3] if t[0] == "l" and len(t) > 3 and t[3]]
+    nss = sorted({ns_of(i)[0] for i in iris if ns_of(i)[0].count("/") >= 3})
+    ctx = {}
+    prefixes = {}
+    labels = ["ex", "n1", "voc", "x-y", "rdf_", "dc"]
+    for ns in nss:
+        if st.random() < 0.6 and len(prefixes) < len(labels):
+            prefixes[ns] = labels[len(prefixes)]
+            ctx[prefixes[ns]] = ns
+    vocab = st.choice([ns for ns in nss if ns not in (XSD,)] + [None, None]) if nss else None
+    if vocab:
+        ctx["@vocab"] = vocab
+    base = None
+    if ext_base:
+        base = ext_base
+    elif st.random() < 0.4:
+        cands = [ns for ns in nss if ns.endswith("/") and ns != XSD]
+        if cands:
+            base = st.choice(cands)
+            ctx["@base"] = base + st.choice(["", "doc.jsonld", "doc#frag"])
+    alias = {}
+    for kw, name in (("@id", "id"), ("@type", "type"), ("@value", "value"), ("@language", "lang"), ("@graph", "graph"), ("@list", "list"), ("@reverse", "rev")):
+        if st.random() < 0.25:
+            alias[kw] = name
+            ctx[name] = kw
+    A = lambda kw: alias.get(kw, kw)  # noqa: E731
+    dlang = st.choice([None, None, "en", "fr"])
+    if dlang:
+        ctx["@language"] = dlang
+
+    def compact(iri, vocab_ok=False):
+        """a spelling of an IRI in a position that is expanded as an IRI (vocab_ok: relative to @vocab, else to @base)"""
+        ns, local = ns_of(iri)
+        r = st.random()
+        if vocab_ok and vocab and ns == vocab and _TERM_OK.match(local) and local not in ctx and r < 0.5:
+            return local
+        rel = not vocab_ok and base and iri.startswith(base) and len(iri) > len(base) and ":" not in iri[len(base) :]
+        if rel and st.random() < 0.5:
+            return iri[len(base) :]
+        if ns in prefixes and local and not local.startswith("//") and r < 0.8:
+            return prefixes[ns] + ":" + local
+        if rel and st.random() < 0.6:
+            return iri[len(base) :]
+        return iri
+
+    def ident(t):
+        return "_:" + t[1] if t[0] == "b" else compact(t[1])
+
+    # term definitions for predicates
+    terms = {}  # predicate IRI -> list of (term, kind, arg)
+    preds = sorted({q[1][1] for q in quads if q[1][1] != TYPE})
+    n = 0
+    for p_ in preds:
+        for kind in ("plain", "id", "dt", "lang", "list", "set", "reverse"):
+            if st.random() < 0.35:
+                n += 1
+                name = "t%d" % n
+                d = {"@id": compact(p_, True) if st.random() < 0.5 else p_}
+                arg = None
+                if kind == "id":
+                    d["@type"] = "@id"
+                elif kind == "dt":
+                    dts = sorted({q[2][3] for q in quads if q[1][1] == p_ and q[2][0] == "l" and len(q[2]) > 3 and q[2][3]})
+                    if not dts:
+                        continue
+                    arg = st.choice(dts)
+                    d["@type"] = compact(arg, True) if st.random() < 0.5 else arg
+                elif kind == "lang":
+                    arg = st.choice(["en", "fr", "en-GB", None])
+                    d["@language"] = arg
+                elif kind == "list":
+                    d["@container"] = "@list"
+                elif kind == "set":
+                    d["@container"] = st.choice(["@set", ["@set"]])
+                elif kind == "reverse":
+                    d = {"@reverse": d["@id"]}
+                if kind == "plain" and st.random() < 0.5:
+                    d = d["@id"]
+                ctx[name] = d
+                terms.setdefault(p_, []).append((name, kind, arg))
+    junk = None
+    if st.random() < 0.2:
+        junk = "ignored"
+        ctx[junk] = None
+
+    def value(o, kind=None, arg=None, embed=None):
+        """the JSON value for object o under a key whose term definition has `kind`"""
+        if o[0] in ("u", "b"):
+            if kind == "id":
+                return ident(o)
+            if embed is not None and st.random() < 0.35:
+                e = embed(o)
+                if e is not None:
+                    return e
+            return {A("@id"): ident(o)}
+        lex, lang, dt = o[1], (o[2] if len(o) > 2 else None), (o[3] if len(o) > 3 else None)
+        if kind == "dt" and dt == arg:
+            return lex
+        if kind == "lang" and not dt and lang == arg:
+            return lex
+        if kind in ("dt", "lang") or (kind == "id"):
+            raise KeyError("value does not fit the coercion")
+        if dt == XSD + "integer" and re.match(r"^(0|-?[1-9][0-9]*)$", lex) and st.random() < 0.5:
+            return int(lex)
+        if dt == XSD + "boolean" and lex in ("true", "false") and st.random() < 0.5:
+            return lex == "true"
+        if dt:
+            return {A("@value"): lex, A("@type"): compact(dt, True) if st.random() < 0.5 else dt}
+        if lang:
+            if lang == dlang and st.random() < 0.6:
+                return lex
+            return {A("@value"): lex, A("@language"): lang}
+        if not dlang and st.random() < 0.6:
+            return lex
+        return {A("@value"): lex}
+
+    def fits(o, kind, arg):
+        if kind in ("plain", "set", "list"):
+            return True
+        if kind in ("id", "reverse"):
+            return o[0] in ("u", "b")
+        lang, dt = (o[2] if len(o) > 2 else None), (o[3] if len(o) > 3 else None)
+        if o[0] != "l":
+            return False
+        return dt == arg if kind == "dt" else (not dt and lang == arg)
+
+    def nodes(ts):
+        by_s, order = {}, []
+        for s_, p_, o_ in ts:
+            if K(s_) not in by_s:
+                by_s[K(s_)] = []
+                order.append(s_)
+            by_s[K(s_)].append((p_, o_))
+        lists = {}
+        for head, (members, cells) in find_lists(ts, quads).items():
+            if any(o == ["b", head] for _, _, o in ts) and not any(m[0] == "b" for m in members) and st.random() < 0.8:
+                lists[head] = members
+                for c in cells:
+                    by_s.pop(K(c), None)
+        order = [s_ for s_ in order if K(s_) in by_s]
+        # reverse properties: the statement is written in the node of its object
+        reverse = {}
+        for s_ in order:
+            keep = []
+            for p_, o_ in by_s[K(s_)]:
+                if o_[0] in ("u", "b") and p_[1] != TYPE and not (o_[0] == "b" and o_[1] in lists) and o_ != ["u", NIL] and st.random() < 0.12:
+                    reverse.setdefault(K(o_), []).append((p_, s_))
+                else:
+                    keep.append((p_, o_))
+            by_s[K(s_)] = keep
+        for k in reverse:
+            if k not in by_s:
+                by_s[k] = []
+                order.append(json.loads(k))
+        emitted = set()
+
+        def embed(o):
+            if K(o) in by_s and K(o) not in emitted:
+                return node(o)
+            return None
+
+        def node(s_):
+            emitted.add(K(s_))
+            n_ = {A("@id"): ident(s_)}
+            types = [o_ for p_, o_ in by_s[K(s_)] if p_[1] == TYPE and o_[0] in ("u", "b")]
+            if types:
+                tv = [("_:" + t[1]) if t[0] == "b" else compact(t[1], True) for t in types]
+                n_[A("@type")] = tv[0] if len(tv) == 1 and st.random() < 0.5 else tv
+            acc, kinds = {}, {}
+            for p_, o_ in by_s[K(s_)]:
+                if p_[1] == TYPE and o_[0] in ("u", "b"):
+                    continue
+                is_list = (o_[0] == "b" and o_[1] in lists) or (o_ == ["u", NIL] and st.random() < 0.5)
+                members = lists[o_[1]] if o_[0] == "b" and o_[1] in lists else []
+                cands = [t for t in terms.get(p_[1], []) if t[1] != "reverse" and (t[1] in ("list", "plain", "set") if is_list else t[1] != "list" and fits(o_, t[1], t[2]))]
+                cands = [t for t in cands if not (t[1] == "list" and t[0] in acc)]  # (two lists cannot share a @container: @list key)
+                if cands and st.random() < 0.7:
+                    name, kind, arg = st.choice(cands)
+                else:
+                    name, kind, arg = (compact(p_[1], True), "plain", None)
+                if is_list:
+                    arr = [value(m) for m in members]
+                    v = arr if kind == "list" else {A("@list"): arr}
+                else:
+                    v = value(o_, kind, arg, embed)
+                acc.setdefault(name, []).append(v)
+                kinds[name] = kind
+            for name, vals in acc.items():
+                if kinds[name] == "list":
+                    n_[name] = vals[0]
+                else:
+                    n_[name] = vals[0] if len(vals) == 1 and st.random() < 0.6 else vals
+            for p_, s2 in reverse.get(K(s_), []):
+                rts = [t for t in terms.get(p_[1], []) if t[1] == "reverse"]
+                sv = embed(s2) if st.random() < 0.3 else None
+                sv = sv if sv is not None else {A("@id"): ident(s2)}
+                if rts and st.random() < 0.7:
+                    name = rts[0][0]
+                    n_[name] = (n_[name] if isinstance(n_.get(name), list) else [n_[name]] if name in n_ else []) + [sv]
+                else:
+                    r_ = n_.setdefault(A("@reverse"), {})
+                    r_.setdefault(compact(p_[1], True), []).append(sv)
+            if junk and st.random() < 0.3:
+                n_[junk] = st.choice(["dropped", {"@id": "http://ex.org/dropped"}, 5])
+            if not vocab and st.random() < 0.15:
+                n_["comment"] = "a key that expands to no IRI is ignored"
+            return n_
+
+        out = []
+        for s_ in order:
+            if K(s_) not in emitted:
+                out.append(node(s_))
+        return out
+
+    groups, order = {}, []
+    for s_, p_, o_, g_ in quads:
+        k = K(g_)
+        if k not in groups:
+            groups[k] = (g_, [])
+            order.append(k)
+        groups[k][1].append((s_, p_, o_))
+    top = []
+    for k in order:
+        g_, ts = groups[k]
+        if g_ is None:
+            top.extend(nodes(ts))
+        else:
+            top.append({A("@id"): ident(g_), A("@graph"): nodes(ts)})
+    # the context: one object, or split in two (later entries may use prefixes of earlier ones)
+    if st.random() < 0.3 and len(ctx) > 1:
+        first = {k: v for k, v in ctx.items() if k.startswith("@") or isinstance(v, str) and k in prefixes.values() or v is None or (isinstance(v, str) and v.startswith("@"))}
+        second = {k: v for k, v in ctx.items() if k not in first}
+        ctxv = [first, second] if second else first
+        if second and st.random() < 0.5:
+            # (a later context overrides the default language of an earlier one, also with null)
+            first["@language"] = "de"
+            second["@language"] = dlang
+    else:
+        ctxv = ctx
+    if len(top) == 1 and A("@graph") not in top[0] and st.random() < 0.5:
+        doc = dict({"@context": ctxv}, **top[0])
+    else:
+        doc = {"@context": ctxv, A("@graph"): top}
+    return json.dumps(doc, indent=st.choice([None, 1, 2]), ensure_ascii=st.random() < 0.3) + "\n"
+
+
 def st_indent(style):
     return None if style is None else _st(style).choice([None, 1, 2])
 
